@@ -102,6 +102,47 @@ def loops_of(path, fn, idx):
     return found
 
 
+def _binds_tm(s):
+    """the expression bound to the name tm by statement s (None if s does not bind tm)"""
+    if not isinstance(s, ast.Assign) or len(s.targets) != 1:
+        return None
+    t, v = s.targets[0], s.value
+    if isinstance(t, ast.Name) and t.id == 'tm':
+        return v
+    if isinstance(t, ast.Tuple) and isinstance(v, ast.Tuple) and len(t.elts) == len(v.elts):
+        for a, b in zip(t.elts, v.elts):
+            if isinstance(a, ast.Name) and a.id == 'tm':
+                return b
+    if any(isinstance(n, ast.Name) and n.id == 'tm' for n in ast.walk(t)):
+        return s            # bound in a way that is not understood
+    return None
+
+
+def fresh_transfer_matrix(path, fn, same, later):
+    """premise of the model: the passed sites start without pending swaps and without an inserted operator for EVERY first operator, i.e. the
+    transfer matrix tm is fetched anew (self[line, 'h'/'v'] builds new tensors) inside the loop over the first operators, before each of the two loops"""
+    o0 = [n for n in ast.walk(fn) if isinstance(n, ast.For) and 'O0dict' in ast.unparse(n.iter)]
+    if len(o0) != 1:
+        raise TranslateError('%s: %s: expected one loop over the first operators, found %d' % (path, fn.name, len(o0)))
+    o0 = o0[0]
+    inside = set(id(n) for n in ast.walk(o0))
+    for n in ast.walk(fn):
+        v = _binds_tm(n)
+        if v is None:
+            continue
+        if id(n) not in inside:
+            fail(path, n, 'transfer matrix bound outside the loop over the first operators (it would be shared between them)')
+        if not (isinstance(v, ast.Subscript) and isinstance(v.value, ast.Name) and v.value.id == 'self'):
+            fail(path, n, 'transfer matrix is not fetched from the environment')
+    def bound_before(body, loop):
+        return any(_binds_tm(s) is not None and s.lineno < loop.lineno for s in body)
+    if same not in o0.body or not bound_before(o0.body, same):
+        fail(path, same, 'no fresh transfer matrix before the loop over the line of the first operator')
+    outer = [n for n in o0.body if isinstance(n, ast.For) and later in n.body]
+    if len(outer) != 1 or not bound_before(outer[0].body, later):
+        fail(path, later, 'no fresh transfer matrix for a later line')
+
+
 def translate(repo):
     path = os.path.join(repo, SRC)
     tree = ast.parse(open(path).read())
@@ -109,6 +150,7 @@ def translate(repo):
     for fname, idx, tag in (('_measure_2site_rows', 'iy1', 'rows'), ('_measure_2site_columns', 'ix1', 'cols')):
         fn = find_function(tree, fname, path)
         same, later = loops_of(path, fn, idx)
+        fresh_transfer_matrix(path, fn, same, later)
         progs.append((tag + '_same_line', site_program(path, same.body, idx, 'o0.n')))
         progs.append((tag + '_later_line', site_program(path, later.body, idx, 'o0.n')))
     return progs
